@@ -29,6 +29,8 @@ def random_header(rng, family):
         return f"new bufedge {cap} {rng.choice(['FIFO', 'FIFO', 'LIFO'])}"
     if family == "prq":
         return f"new prq {rng.choice([1, 1, 2, 3, 5])}"
+    if family == "slot":
+        return f"new slot {rng.choice([1, 2, 2, 3, 3, 4, 5])} {rng.choice([1, 1, 2, 2, 4, 0] if rng.random() < 0.2 else [1, 1, 2, 2, 4])} {rng.choice([0, 1])}"
     if family == "fleet":
         return f"new fleet {rng.choice([1, 2, 2, 3, 3, 4, 6])} {rng.choice([1, 2, 4, 4, 8, 16, 16, 0] if rng.random() < 0.15 else [1, 2, 4, 4, 8, 16])} {rng.choice([0, 0, 1, 2, 3, 8])}"
     raise ValueError(family)
@@ -78,7 +80,7 @@ def gen_history(rng, header, nops, malformed=0.2, stats=None):
     def new_item():
         if next_item[0] > 0 and rng.random() < 0.05:
             i = rng.randrange(next_item[0])          # the same object put again
-            if family == "fleet":
+            if family in ("fleet", "slot"):
                 if i in gone: return i       # an object is loaded again only after it has left (a flow item is in one place)
             elif family == "pos" or rng.random() < 0.15 or i in gone: return i
         next_item[0] += 1
@@ -89,7 +91,7 @@ def gen_history(rng, header, nops, malformed=0.2, stats=None):
         i = new_item()
         op = ["put", a, tid, i, kinds[i]]
         if family in ("buf", "bufedge"): op.append(rng.choice(DELAYS))
-        if family == "fleet": op.append(0)
+        if family in ("fleet", "slot"): op.append(0)
         return tuple(op)
 
     for _ in range(nops):
@@ -141,7 +143,7 @@ def gen_history(rng, header, nops, malformed=0.2, stats=None):
             elif r < 0.80:
                 t = pick(state="pending") if rng.random() < .5 else pick(state="granted")
                 if t: op = ("cp" if t.side == "put" else "cg", t.tid)
-            elif family == "fleet" and r < 0.96:
+            elif family in ("fleet", "slot") and r < 0.96:
                 # event by event: either the next kernel event, or a clock move that stops at (or before) it
                 nt = impl.next_time(); nowt = f2t(impl.env.now)
                 d = rng.choice(ADVS)
@@ -154,14 +156,14 @@ def gen_history(rng, header, nops, malformed=0.2, stats=None):
                 op = ("settle",)
             elif r < 0.96:
                 op = ("kstep",)
-            elif family in ("buf", "bufedge", "fleet") and r < 0.985:
+            elif family in ("buf", "bufedge", "fleet", "slot") and r < 0.985:
                 op = ("probe", rng.choice(["can_put", "can_get", "occ", "ready"]))
-            elif family in ("buf", "bufedge", "fleet") and r < 0.99:
+            elif family in ("buf", "bufedge", "fleet", "slot") and r < 0.99:
                 op = ("final",)
             else:
                 op = ("stat",)
         if op is None:
-            op = ("settle",) if family != "fleet" else ("ev",)
+            op = ("settle",) if family not in ("fleet", "slot") else ("ev",)
         line = impl.do(op)
         ops.append(op); lines.append(line)
         # track token states from the implementation's answers
